@@ -153,7 +153,7 @@ def replay(vectors, name, tables, groups="G1,G2", profiles="5", build="release",
         for v in vectors:
             f.write(json.dumps(v) + "\n")
     cmd = [bin_path(build, feature), "replay", "--vectors", vp, "--tables", tables, "--out", op,
-           "--groups", groups, "--profiles", profiles, "--seed", str(SEED), "--threads", THREADS, "--max-fail", os.environ.get("VERIF_MAX_FAIL", "50")]
+           "--groups", groups, "--profiles", profiles, "--seed", str(SEED), "--threads", THREADS, "--max-fail", os.environ.get("VERIF_MAX_FAIL", "25")]
     try:
         rc, out, dt = sh(cmd, cwd=WORK, timeout=timeout, check=False)
     except subprocess.TimeoutExpired:
